@@ -134,6 +134,7 @@ func (t *Torrent) announce(ipv6 bool) {
 		prot = "IPv6"
 	}
 	t.Log.Printf("Starting %v announce for %v\n", prot, t.Hash)
+	verifDhtAnnounce(t.Hash, ipv6, port)
 	dht.Announce(t.Hash, ipv6, port)
 	t.announceTime = time.Now()
 }
@@ -1793,6 +1794,7 @@ func Expire() int {
 		return 0
 	}
 
+	verifExpireYield()
 	count := count()
 	fair := low / int64(count)
 
